@@ -19,11 +19,13 @@ def scan_units():
     units = []
     for h in unit_headers():
         txt = open(os.path.join(UNITS_DIR, h)).read()
-        for m in re.finditer(r"^struct (\w+) : ([^\n{]*?)\s*\{", txt, re.M):
-            name, base = m.group(1), m.group(2)
+        for m in re.finditer(r"^struct (\w+) : (.*?)\s*\{(?:[ \t]*\n|\};)", txt, re.M | re.S):
+            name, base = m.group(1), " ".join(m.group(2).split())
             if name.endswith("Label"):
                 continue
-            u = {"name": name, "header": "au/units/" + h, "definition": base.strip()}
+            body = txt[m.end():txt.index("};", m.end() - 2) if "};" in txt[m.end() - 2:] else m.end()]
+            u = {"name": name, "header": "au/units/" + h, "definition": base.strip(),
+                 "declares_label": bool(re.search(r"\blabel\b", body))}
             mm = re.search(r"constexpr auto (\w+) = QuantityMaker<" + name + r">", txt)
             u["maker"] = mm.group(1) if mm else None
             mm = re.search(r"constexpr auto (\w+) = QuantityPointMaker<" + name + r">", txt)
